@@ -73,3 +73,14 @@ pub mod claims {
 pub mod stagepair {
     include!(concat!(env!("BROOD_VERIF_DIR"), "/harness/stagepair.rs"));
 }
+
+
+#[cfg(kani)]
+pub mod sched {
+    include!(concat!(env!("BROOD_VERIF_DIR"), "/harness/sched.rs"));
+}
+
+#[cfg(kani)]
+pub mod bitwalk {
+    include!(concat!(env!("BROOD_VERIF_DIR"), "/harness/bitwalk.rs"));
+}
